@@ -7,7 +7,6 @@ import (
 	"sync"
 	"sync/atomic"
 
-	"github.com/tikv/client-go/v2/verifrt/ev"
 	"github.com/tikv/client-go/v2/verifrt/membuf"
 	"github.com/tikv/client-go/v2/verifrt/models/omap"
 	"github.com/tikv/client-go/v2/verifrt/seqx"
@@ -26,12 +25,12 @@ import (
 //	        persistent flag, a flags-only key with a non-persistent flag (thorough: a value with a flag)
 //	open    none | Staging | Staging Staging | Checkpoint | Staging Checkpoint | Checkpoint Staging
 //	write   UpdateFlags / SetWithFlags / DeleteWithFlags of the target key with a flag-op list F:
-//	        empty, every single kv.FlagsOp (all 22), and pairs (quick: persistent x non-persistent in both
-//	        orders + every pair of ops that touch the same flag, in both orders; thorough: all ordered pairs)
+//	        empty, every single kv.FlagsOp (all 22), and pairs (quick: persistent-flag op + non-persistent-flag
+//	        op, and every pair of ops that touch a common flag bit in both orders; thorough: all ordered pairs)
 //	end     every way of closing what was opened: Cleanup / Release per level, RevertToCheckpoint
 //	rewrite Set / Delete / UpdateFlags() / UpdateFlags(set a persistent flag) / UpdateFlags(del a
 //	        non-persistent flag) / SetWithFlags, directly or inside a fresh staging level (InspectStage)
-//	final   (thorough) Cleanup or Release of that fresh level
+//	final   (thorough) Cleanup of that fresh level
 //
 // Every prefix of every case (from the write on) is executed on fresh ART and RBT
 // buffers through the same exec as the searches: the whole observation set
@@ -77,6 +76,7 @@ type ufStats struct {
 	perShape                    map[string]int64
 	bounds                      map[string]any
 	flagListsSingle, flagsPairs int
+	samples                     []any
 }
 
 func ufOp(kind string, k int, v string, f ...string) membuf.Op {
@@ -101,16 +101,28 @@ func ufFlagLists(allPairs bool) (lists [][]string, singles, pairs int) {
 		lists = append(lists, []string{a.String()})
 		singles++
 	}
-	for a := omap.FlagOp(0); a < omap.NumFlagOps; a++ {
-		for b := omap.FlagOp(0); b < omap.NumFlagOps; b++ {
-			if a == b {
-				continue
-			}
-			mixed := ufIsPersistentOp(a) != ufIsPersistentOp(b)
-			sameFlag := ufTouches(a)&ufTouches(b) != 0
-			if allPairs || mixed || sameFlag {
-				lists = append(lists, []string{a.String(), b.String()})
-				pairs++
+	// quick: a persistent-flag op followed by a non-persistent-flag op (they touch different bits: the
+	// other order is left to the thorough tier) and every pair that touches a common bit, in both orders.
+	// Order of the list: those mixed pairs, the common-bit pairs, the rest.
+	for pass := 0; pass < 3; pass++ {
+		for a := omap.FlagOp(0); a < omap.NumFlagOps; a++ {
+			for b := omap.FlagOp(0); b < omap.NumFlagOps; b++ {
+				if a == b {
+					continue
+				}
+				sameFlag := ufTouches(a)&ufTouches(b) != 0
+				mixed := ufIsPersistentOp(a) && !ufIsPersistentOp(b) && !sameFlag
+				class := 2
+				switch {
+				case mixed:
+					class = 0
+				case sameFlag:
+					class = 1
+				}
+				if class == pass && (allPairs || class < 2) {
+					lists = append(lists, []string{a.String(), b.String()})
+					pairs++
+				}
 			}
 		}
 	}
@@ -120,17 +132,17 @@ func ufFlagLists(allPairs bool) (lists [][]string, singles, pairs int) {
 func ufShapes(thorough bool) []*ufShape {
 	s := []*ufShape{
 		// the target is a sibling leaf under the node whose in-place leaf is the neighbour
-		{name: "sibling", keys: bs("a", "a\x00"), probes: bs("", "b"), target: 1, neighbour: 0},
+		{name: "sibling", keys: bs("a", "a\x00"), probes: bs(""), target: 1, neighbour: 0},
 		// the target is the only key the tree has ever seen
-		{name: "alone", keys: bs("a\x00"), probes: bs("", "b"), target: 0, neighbour: -1},
+		{name: "alone", keys: bs("a\x00"), probes: bs("a", "b"), target: 0, neighbour: -1},
 	}
 	if thorough {
 		s = append(s,
 			// the target is the in-place leaf (a prefix of the neighbour), and the empty key
-			&ufShape{name: "inplace", keys: bs("a\x00", "a"), probes: bs("", "b"), target: 1, neighbour: 0},
+			&ufShape{name: "inplace", keys: bs("a\x00", "a"), probes: bs(""), target: 1, neighbour: 0},
 			&ufShape{name: "empty-key", keys: bs("a", ""), probes: bs("b"), target: 1, neighbour: 0},
 			// common prefix longer than the in-node prefix
-			&ufShape{name: "long-prefix", keys: bs(long, long+"\xff"), probes: bs("", "b"), target: 1, neighbour: 0})
+			&ufShape{name: "long-prefix", keys: bs(long, long+"\xff"), probes: bs("a"), target: 1, neighbour: 0})
 	}
 	return s
 }
@@ -298,17 +310,26 @@ func (it *ufItem) run(thorough bool) {
 			if it.exec(c, in) || !thorough {
 				continue
 			}
-			it.exec(c, append(in[:len(in):len(in)], ufOp("Cleanup", 0, "")))
-			it.exec(c, append(in[:len(in):len(in)], ufOp("Release", 0, "")))
+			it.exec(c, append(in[:len(in):len(in)], ufOp("Cleanup", 0, ""))) // a second undo, of the re-write
 		}
 	}
 }
 
-func runUndoFlags(thorough bool, samples *ev.Samples) ufStats {
+func runUndoFlags(thorough bool) ufStats {
 	var tot ufStats
 	tot.perShape = map[string]int64{}
 	lists, singles, pairs := ufFlagLists(thorough)
-	curated, _, _ := ufFlagLists(false)
+	curated, _, _ := ufFlagLists(false) // the quick tier's list, persistent + non-persistent pairs first
+	mixedPairs := 0
+	for _, l := range curated {
+		if len(l) == 2 {
+			a, _ := membuf.FlagOpByName(l[0])
+			b, _ := membuf.FlagOpByName(l[1])
+			if ufIsPersistentOp(a) && !ufIsPersistentOp(b) && ufTouches(a)&ufTouches(b) == 0 {
+				mixedPairs++
+			}
+		}
+	}
 	tot.FlagLists, tot.flagListsSingle, tot.flagsPairs = len(lists), singles, pairs
 	scopes := ufScopes(thorough)
 	var items []*ufItem
@@ -325,17 +346,17 @@ func runUndoFlags(thorough bool, samples *ev.Samples) ufStats {
 		sort.Strings(names)
 		tot.Bases = len(names)
 		// the full flag vocabulary on the first shape; the other shapes (tree position of the leaf) with the
-		// singles (thorough: with the quick tier's pair list)
+		// singles (thorough: plus the persistent + non-persistent pairs)
 		shapeLists := lists
 		if si > 0 {
 			shapeLists = lists[:1+singles]
 			if thorough {
-				shapeLists = curated
+				shapeLists = curated[:1+singles+mixedPairs]
 			}
 		}
 		var wraps [][]membuf.Op
 		wraps = append(wraps, nil)
-		if thorough {
+		if thorough && si == 0 {
 			wraps = append(wraps, []membuf.Op{ufOp("Staging", 0, "")}) // everything inside one outer staging level
 		}
 		for wi, wrap := range wraps {
@@ -373,7 +394,7 @@ func runUndoFlags(thorough bool, samples *ev.Samples) ufStats {
 							items = append(items, &ufItem{stem: stem, writes: ufQuote(c, []membuf.Op{w})})
 							// two writes inside the scope (thorough, singles only): a value write followed by a flags-only
 							// update and the other way round
-							if thorough && len(f) == 1 && wi == 0 && si == 0 {
+							if thorough && len(f) == 1 && wi == 0 && si == 0 && kind != "DeleteWithFlags" {
 								for _, f2 := range shapeLists[1 : 1+singles] {
 									k2 := "UpdateFlags"
 									if kind == "UpdateFlags" {
@@ -457,11 +478,16 @@ func runUndoFlags(thorough bool, samples *ev.Samples) ufStats {
 		for _, x := range it.hits {
 			report(it.stem.cfg, x, it.stem.label)
 		}
-		if i == len(items)/3 || i == 2*len(items)/3 {
-			it := it
-			samples.Add(func() any {
-				return map[string]any{"undoflags": it.stem.label, "write": fmt.Sprint(it.writes), "ends": fmt.Sprint(it.stem.ends), "then": "every re-write of the key, directly and inside a fresh staging level"}
-			})
+		if i == len(items)/7 || i == len(items)/3 || i == 2*len(items)/3 {
+			// one concrete case of this item, written out: the last ending and the in-level form of a re-write
+			end := it.stem.ends[len(it.stem.ends)-1]
+			rws := ufQuote(it.stem.cfg, ufRewrites(it.stem.shape.target, thorough))
+			h := append(append(append(append([]membuf.Op{}, it.stem.ops...), it.writes...), end...), ufOp("Staging", 0, ""), rws[i%len(rws)])
+			tr := make([]string, len(h))
+			for j, o := range h {
+				tr[j] = o.String()
+			}
+			tot.samples = append(tot.samples, map[string]any{"config": it.stem.cfg.Name, "undoflags_case": it.stem.label, "trace": tr})
 		}
 	}
 	tot.States = int64(len(states))
